@@ -167,7 +167,7 @@ func (g *genCtx) runC13(reqs []*genReq) {
 		for _, f := range v.base.resp.File {
 			c := f.GetContent()
 			for _, m := range markers {
-				if m != "" && strings.Contains(c, m) {
+				if m != "" && containsMarker(c, m) {
 					v.problems = append(v.problems, fmt.Sprintf("%s contains environment-dependent text %q", f.GetName(), m))
 				}
 			}
@@ -292,4 +292,28 @@ func trunc(s string, n int) string {
 		return s[:n] + "..."
 	}
 	return s
+}
+
+// containsMarker reports an occurrence of an environment marker in emitted text. A marker that is an absolute path
+// (the build directory, its parent ...) only counts when it ends at a path-component boundary: "/verif" must not match
+// inside the Go import path "github.com/cosmos/cosmos-proto/verifh".
+func containsMarker(text, m string) bool {
+	if !strings.HasPrefix(m, "/") || strings.HasSuffix(m, "/") {
+		return strings.Contains(text, m)
+	}
+	for off := 0; ; {
+		i := strings.Index(text[off:], m)
+		if i < 0 {
+			return false
+		}
+		end := off + i + len(m)
+		if end == len(text) {
+			return true
+		}
+		c := text[end]
+		if !(c == '_' || c == '-' || c == '.' || (c >= '0' && c <= '9') || (c >= 'a' && c <= 'z') || (c >= 'A' && c <= 'Z')) {
+			return true
+		}
+		off = end
+	}
 }
